@@ -101,6 +101,17 @@ fn main() {
             let (sum, _) = subject::run(&prog, &subject::Cfg::default(), sink);
             println!("{:?}", sum);
         }
+        "gentest" => {
+            // write generated Rust tests for a sample of programs of a check's family (self-check
+            // of the generator: compile them in a scratch crate against loom)
+            let c = pos.first().cloned().unwrap_or_else(|| usage());
+            let n: usize = pos.get(1).and_then(|x| x.parse().ok()).unwrap_or(20);
+            let s = specs::spec(&c, &tier).unwrap_or_else(|| usage());
+            let step = (s.jobs.len() / n).max(1);
+            for j in s.jobs.iter().step_by(step).take(n) {
+                println!("{}", ir::rust_test(&j.program));
+            }
+        }
         "replay" => {
             let p = pos.first().cloned().unwrap_or_else(|| usage());
             std::process::exit(driver::replay(&p));
